@@ -150,6 +150,134 @@ def _replay_compiled(inst, name, model, tr, flat, kind):
         return None
 
 
+# ---------------------------------------------------------------------------------------------------
+# threaded runtime (engine A)
+class FakeFuture:
+    """single-threaded stand-in for concurrent.futures.Future: result() of an unset future runs the harness hook that plays the
+    user thread (one fixed interleaving; thread schedules are not this property's subject)"""
+
+    hook = None
+
+    def __init__(self):
+        self._set, self._val, self._cancelled = False, None, False
+
+    def set_result(self, v):
+        self._set, self._val = True, v
+
+    def cancel(self):
+        self._cancelled = True
+
+    def result(self, timeout=None):
+        if not self._set and not self._cancelled and FakeFuture.hook is not None:
+            FakeFuture.hook(self)
+        if self._cancelled:
+            from concurrent.futures import CancelledError
+            raise CancelledError()
+        return self._val
+
+
+def scen_async_nodes(cfg):
+    from props import c04
+
+    def scenario(V):
+        node, rec, obs, inp = c04.build(V, cfg)
+        K = cfg["nticks"]
+        calls = node.node.step_calls
+        seqs = [int(s.seq) for s in calls]
+        states = [s.state for s in calls]
+        exp_states = [("state", "n", "init")] + [("state", "n", k) for k in range(K - 1)]
+        return {
+            "every fired tick executes the step function exactly once, with that tick's sequence number": all(o["fired"] for o in obs) and seqs == list(range(K)),
+            "the state handed to tick k is the state returned by tick k-1 (no hidden extra execution)": states == exp_states,
+            "after the step the node's sequence number is tick + 1": int(node._step_state.seq) == K,
+            "the output sent to consumers is the output of that single execution": [a[0] for t_, n_, a in rec.tasks if n_ == "push_input"] == [("output", "n", k, k) for k in range(K)],
+            "twin:ticks fired": len(calls) >= 1,
+        }
+
+    return scenario
+
+
+def scen_async_supervisor(cfg):
+    from fractions import Fraction
+    from rex import base
+    from vlib import asyncsym
+
+    override = cfg["override"]
+
+    def scenario(V):
+        import rex.asynchronous as A
+        rec = asyncsym.Recorder()
+        sup = asyncsym.mk_node(V, rec, "sup", 10, phase=V.grid("phase", lo=0, hi=1))
+        sync = A._Synchronizer(sup)
+        sync.reset()
+        g = object.__new__(A.AsyncGraph)
+        g._async_nodes = {"sup": sup}
+        g.supervisor = sup.node
+        g._synchronizer = sync
+        g._initial_step = False
+        n_user = []
+
+        def user_thread(fut):  # what the user's thread does while the supervisor's worker waits for the action
+            obs_ss = sync.observation.popleft().result()
+
+            class GS:  # minimal graph state: run_supervisor only reads the supervisor's step state
+                step_state = {"sup": obs_ss}
+            n_user.append(len(sup.node.step_calls))
+            if override:
+                g.run_supervisor(GS, obs_ss, ("user-output",))
+            else:
+                g.run_supervisor(GS)
+
+        FakeFuture.hook = user_thread
+        try:
+            sup.q_ts_end_prev.append(asyncsym.zero(V))
+            sup.q_tick.append(True)
+            sup.push_scheduled_ts()
+        finally:
+            FakeFuture.hook = None
+        calls = sup.node.step_calls
+        want = 0 if override else 1
+        return {
+            f"supervisor step function runs {'zero times when overridden' if override else 'exactly once (in the user thread) when not overridden'}": len(calls) == want and len(sup._record_steps) == 1,
+            "the synchroniser itself never runs the step function": n_user == [0],
+            "sequence number advances by exactly one": int(sup._step_state.seq) == 1,
+            "twin:step fired": len(sup._record_steps) == 1,
+        }
+
+    return scenario
+
+
+def worker_async(cfg, tier):
+    import rex.asynchronous as A
+    from props.c03 import _to_obs
+    from vlib import pysym
+
+    extra = {"onp": pysym.FakeNumpy(A.onp)}
+    if cfg["scen"] == "supervisor":
+        extra["Future"] = FakeFuture
+        scen = scen_async_supervisor(cfg)
+    else:
+        scen = scen_async_nodes(cfg)
+    res, stats = pysym.run_scenario(scen, [A], extra_patch={"rex.asynchronous": extra})
+    keymap = {r["name"]: "async-step-count" for r in res}
+    whatmap = {r["name"]: f"threaded runtime: {r['name']} -- violated (the user's step function is not executed exactly once per recorded tick)" for r in res}
+    obs, stats = _to_obs(res, stats, cfg, "async", keymap, whatmap)
+    if obs:
+        obs[0].detail = {"stats": stats}
+    return obs
+
+
+def async_configs(tier):
+    out = []
+    for sched in ("frequency", "phase"):
+        for nb, nnb in ((0, 0), (1, 0), (1, 1)):
+            for rs in (None, dict(rng=True, inputs=True, state=True, output=True)):
+                out.append(dict(scen="nodes", rate=10, scheduling=sched, advance=False, n_blocking=nb, n_nonblocking=nnb, nticks=2 if tier == "quick" else 3,
+                                record_setting=rs, groups=True))
+    out += [dict(scen="supervisor", override=False), dict(scen="supervisor", override=True)]
+    return out
+
+
 def run(rep):
     from rex import graph, partition_runner
     from vlib import cg
@@ -163,9 +291,16 @@ def run(rep):
     insts = cg.instances(rep.tier, small=True)
     rep.configs = insts
     rep.bounds = dict(instances=len(insts), api=["run", "reset", "step", "step(override)"], vmap="excluded by the property")
+    rep.stubs = []
     rep.assumptions = ["0 <= graph_state.step <= max_step", "user step function = arbitrary deterministic function (UF of its arguments)",
                        "effects are counted at jaxpr level: one occurrence under guard G executes iff G (lax.cond semantics, un-vmapped)"]
     obs = pmap("props.c06", "worker_compiled", insts, rep.tier)
+    import rex.asynchronous as A
+    rep.encode(A._AsyncNodeWrapper._async_step, A._AsyncNodeWrapper.async_step, A._AsyncNodeWrapper.push_step, A._Synchronizer._async_step, A.AsyncGraph.run_supervisor)
+    acfg = async_configs(rep.tier)
+    rep.configs = insts + acfg
+    rep.stubs += ["threaded runtime: _submit -> recorder; concurrent.futures.Future -> single-threaded stand-in whose result() plays the user thread; node.step -> counting stand-in"]
+    obs += pmap("props.c06", "worker_async", acfg, rep.tier)
     rep.add_all(obs)
 
 
